@@ -309,3 +309,16 @@ package unary
 //@ trusted func (db *DB) OpenWriter(ctx context.Context, cfgs ...WriterConfig) (w *Writer, transfer control.Transfer, err error)
 //@   ensures (err == nil) == (w != nil)
 //@   modifies nothing
+
+//@ # ---- what cesium.DB.DeleteTimeRange relies on (C04: "deleting from an index channel is refused
+//@ # while a channel it indexes still has data in that range"). SpecHasData is the ghost "some stored
+//@ # domain of this channel overlaps tr" (domain.DB.HasDataFor is proved to compute it); the unary
+//@ # wrapper may also answer true because a writer holds the region - the safe direction.
+//@ spec func SpecHasData(db DB, tr telem.TimeRange) bool
+//@ pure func (db *DB) Channel() channel.Channel
+//@ spec func SpecIndexOf(db DB) channel.Key = db.cfg.Channel.Index
+//@ trusted func (db *DB) HasDataFor(ctx context.Context, tr telem.TimeRange) (has bool, err error)
+//@   ensures err == nil && !has ==> !SpecHasData(*db, tr)
+//@   modifies nothing
+//@ trusted func (db *DB) Delete(ctx context.Context, tr telem.TimeRange) (err error)
+//@   modifies nothing
